@@ -53,7 +53,7 @@ func (jenny *Builder) generateBuilder(context languages.Context, builder ast.Bui
 			return ""
 		}
 
-		return imports.Add(pkg, jenny.Config.importPath(pkg))
+		return imports.Add(formatImportAlias(pkg), jenny.Config.importPath(pkg))
 	}
 	jenny.typeFormatter = builderTypeFormatter(jenny.Config, context, imports, jenny.typeImportMapper)
 	jenny.pathFormatter = makePathFormatter(jenny.typeFormatter)
@@ -77,7 +77,7 @@ func (jenny *Builder) generateBuilder(context languages.Context, builder ast.Bui
 			continue
 		}
 
-		importedPackages[formatPackageName(pkg)] = struct{}{}
+		importedPackages[formatPackageName(formatImportAlias(pkg))] = struct{}{}
 	}
 
 	constructorName := "New" + formatObjectName(builder.For.SelfRef.ReferredType)
